@@ -458,6 +458,10 @@ func serveStress(s *Summary, rng *rand.Rand, n int, out *traceWriter) {
 		if rng.Intn(2) == 0 {
 			opts = append(opts, rux.HandleMethodNotAllowed)
 		}
+		encoded := t%3 == 1 // UseEncodedPath: routes are matched on the escaped path, parameters are the escaped segments
+		if encoded {
+			opts = append(opts, rux.UseEncodedPath)
+		}
 		grow := sh[1] > sh[0] || (t >= len(shapes) && rng.Intn(2) == 0)
 		gcap, mwcap := sh[0], sh[2]
 		if grow {
@@ -482,6 +486,9 @@ func serveStress(s *Summary, rng *rand.Rand, n int, out *traceWriter) {
 					if kind == "b" && wr.Intn(2) == 0 {
 						id = fmt.Sprintf("k%d", wr.Intn(3)) // repeated dynamic paths: cache hits
 					}
+					if kind == "b" && encoded {
+						id = fmt.Sprintf("e%%25%d", wr.Intn(3)) // an escaped '%' in the segment; a few values, so that cache hits occur
+					}
 					rid := fmt.Sprintf("%s#%d.%d", id, w, i)
 					path := servePath(kind, id)
 					if kind == "na" {
@@ -489,7 +496,11 @@ func serveStress(s *Summary, rng *rand.Rand, n int, out *traceWriter) {
 					}
 					rec := httptest.NewRecorder()
 					rl := &reqLog{}
-					req := (&http.Request{Method: "GET", URL: &url.URL{Path: path}, Header: http.Header{"X-Req": {rid}}, Proto: "HTTP/1.1"}).
+					u := &url.URL{Path: path}
+					if dec, err := url.PathUnescape(path); err == nil && dec != path {
+						u = &url.URL{Path: dec, RawPath: path}
+					}
+					req := (&http.Request{Method: "GET", URL: u, Header: http.Header{"X-Req": {rid}}, Proto: "HTTP/1.1"}).
 						WithContext(context.WithValue(context.Background(), reqLogKey{}, rl))
 					func() {
 						defer func() {
